@@ -1,6 +1,7 @@
 """Translator, part 8: the statement methods of the writer's streams -> lean/JellyGenerated/StreamGen.lean.
 
-    pyjelly/serialize/streams.py : TripleStream.triple, QuadStream.quad, Stream.enroll (+ Stream.stream_options)
+    pyjelly/serialize/streams.py : TripleStream.triple, QuadStream.quad, Stream.enroll (+ Stream.stream_options),
+                                   Stream.namespace_declaration
 
 They join the translated pieces: the rows `encode_triple` / `encode_quad` (StmtGen.lean) return are ALL appended to the flow
 (`self.flow.extend`), and the flow is asked for a frame after every statement (`self.flow.frame_from_bounds()`, dynamic
@@ -98,6 +99,37 @@ def render_enroll(enroll: ast.FunctionDef, stream_options: ast.FunctionDef) -> s
         "    modify fun s => { s with enrolled := true }"])
 
 
+def render_namespace_declaration(fn: ast.FunctionDef) -> str:
+    """rows = encode_namespace_declaration(name=name, value=iri, term_encoder=self.encoder); self.flow.extend(rows)"""
+    a = fn.args
+    if len(a.args) != 3 or a.vararg or a.kwarg or a.kwonlyargs or a.defaults or [ast.unparse(x.annotation) for x in a.args[1:]] != ["str", "str"]:
+        fail(fn, "parameter list")
+    pname, piri = a.args[1].arg, a.args[2].arg
+    b = body_of(fn)
+    if len(b) != 2:
+        fail(fn, "shape")
+    s0, s1 = b
+    if not (isinstance(s0, ast.Assign) and len(s0.targets) == 1 and isinstance(s0.targets[0], ast.Name) and isinstance(s0.value, ast.Call)
+            and getattr(s0.value.func, "id", None) == "encode_namespace_declaration"):
+        fail(s0, "call of encode_namespace_declaration")
+    given = dict(zip(("name", "value", "term_encoder"), s0.value.args))
+    for k in s0.value.keywords:
+        if k.arg in given:
+            fail(s0, "arguments")
+        given[k.arg] = k.value
+    if set(given) != {"name", "value", "term_encoder"} or getattr(given["name"], "id", None) != pname or getattr(given["value"], "id", None) != piri \
+            or ast.unparse(given["term_encoder"]) != "self.encoder":
+        fail(s0, "arguments")
+    rows = s0.targets[0].id
+    if not (isinstance(s1, ast.Expr) and isinstance(s1.value, ast.Call) and ast.unparse(s1.value.func) == "self.flow.extend"
+            and len(s1.value.args) == 1 and getattr(s1.value.args[0], "id", None) == rows and not s1.value.keywords):
+        fail(s1, "flow.extend")
+    return "\n".join([
+        f"def Stream.namespace_declaration ({pname} : String) ({piri} : String) : M Stream Unit := do",
+        f"  let {rows} ← zoom (·.enc.te) (fun s v => {{ s with enc := {{ s.enc with te := v }} }}) (encode_namespace_declaration {pname} {piri})",
+        f"  {ZF} (flowExtend {rows})"])
+
+
 def translate() -> str:
     tree = ast.parse((REPO / SRC).read_text())
 
@@ -123,6 +155,8 @@ def translate() -> str:
     out += [f"/-- `QuadStream.quad` ({SRC}:{q.lineno}) -/", render_statement_method("QuadStream", q, "encode_quad"), ""]
     st = cls("Stream")
     out += [f"/-- `Stream.stream_options` / `Stream.enroll` ({SRC}:{meth(st, 'enroll').lineno}) -/", render_enroll(meth(st, "enroll"), meth(st, "stream_options")), ""]
+    nd = meth(st, "namespace_declaration")
+    out += [f"/-- `Stream.namespace_declaration` ({SRC}:{nd.lineno}) -/", render_namespace_declaration(nd), ""]
     out.append("end Jelly.Gen")
     return "\n".join(out) + "\n"
 
